@@ -90,3 +90,6 @@ func (c *Ctx) guard(rel string, desc interface{}, fn func()) {
 	}()
 	fn()
 }
+
+func jsonMarshal(v interface{}) ([]byte, error)   { return json.Marshal(v) }
+func jsonUnmarshal(b []byte, v interface{}) error { return json.Unmarshal(b, v) }
